@@ -53,7 +53,14 @@ uint32_t xorshift128(struct xorshift128_state *state)
 	return state->x[0] = t ^ s ^ (s >> 19);
 }
 
-uint32_t XOR128_SEED = 0;
+/* The generator state is per thread: every worker seeds itself (srand_) before
+ * drawing, and must not perturb - or be perturbed by - the stream of another thread.
+ */
+#if defined(_MSC_VER)
+static __declspec(thread) uint32_t XOR128_SEED = 0;
+#else
+static __thread uint32_t XOR128_SEED = 0;
+#endif
 
 void srand_(uint32_t seed)
 {
